@@ -13,7 +13,8 @@ pub fn parse_records_parallel(
     string_block: Arc<StringBlock>,
 ) -> Result<RecordSet> {
     // The header is untrusted: nothing is allocated from its counts before it fits the data
-    header.check_fits(data.len() as u64)?;
+    let record_offset = crate::versions::record_data_offset(data);
+    header.check_fits_at(record_offset, data.len() as u64)?;
     if schema.is_none() {
         header.check_raw_fields_fit(data.len() as u64)?;
     }
@@ -38,7 +39,7 @@ pub fn parse_records_parallel(
             for &index in chunk {
                 // Seek to the position of the record
                 let record_position =
-                    DbcHeader::SIZE as u64 + (index as u64 * header.record_size as u64);
+                    record_offset + (index as u64 * header.record_size as u64);
                 cursor.seek(SeekFrom::Start(record_position))?;
 
                 // Parse the record
